@@ -137,8 +137,20 @@ theorem strInv_leaf (wall : Nat) (s s' : State) (m : Msg) (r : Resp) (hl : m.isL
 
 theorem payer_user (tx : Tx) (payer : Addr) (hu : tx.required.all isUserAddr = true) (hp : tx.payer = some payer) :
     payer < 1000 := by
-  unfold Tx.payer at hp
-  have hm : payer ∈ tx.required := List.mem_of_mem_head? hp
+  have hm : payer ∈ tx.required := by
+    unfold Tx.payer at hp
+    unfold Tx.required
+    cases hfp : tx.feePayer with
+    | some p =>
+      rw [hfp] at hp
+      cases hp
+      simp only
+      split
+      · rename_i hc; simpa using hc
+      · simp
+    | none =>
+      rw [hfp] at hp
+      exact List.mem_of_mem_head? hp
   have := List.all_eq_true.mp hu payer hm
   simpa [isUserAddr] using this
 
